@@ -8,7 +8,10 @@ package main
 // readercontent[p] for *bytes.Reader / *os.File handles;
 // fsexists[path], fssize[path], fscontent[path] for the file system (keyed by path identity).
 
-import "go/types"
+import (
+	"go/types"
+	"strings"
+)
 
 func (x *Exec) ghostSel(st *State, name string, idx *Term) *Term {
 	return Select(st.ghostArr(name, SInt), idx)
@@ -55,6 +58,7 @@ func init() {
 	// (*bytes.Buffer).ReadFrom(r): reads until EOF or error.  On success from an empty
 	// buffer the buffer holds exactly all bytes of r.
 	models["bytes.Buffer.ReadFrom"] = func(x *Exec, fr *Frame, st *State, pc *preparedCall, k func(*State, []Value)) {
+		x.noIndexLockDuringTransfer(fr, st, pc)
 		b := pc.recv.(PtrV)
 		rid := x.identityOf(st, pc.args[0])
 		n := Var(x.fresh("readn"), SInt)
@@ -89,6 +93,7 @@ func init() {
 	// io.Copy(dst, src): copies until EOF or first error.  When dst is a ghost file the
 	// file receives the bytes; a failed copy may have written a proper prefix.
 	models["io.Copy"] = func(x *Exec, fr *Frame, st *State, pc *preparedCall, k func(*State, []Value)) {
+		x.noIndexLockDuringTransfer(fr, st, pc)
 		dst := x.identityOf(st, pc.args[0])
 		rid := x.identityOf(st, pc.args[1])
 		n := Var(x.fresh("copied"), SInt)
@@ -313,4 +318,21 @@ func (x *Exec) pathAxioms() {
 	x.GlobalFacts = append(x.GlobalFacts,
 		Forall([]*Term{d, a, b}, Implies(Eq(App("pathjoin", SInt, d, a), App("pathjoin", SInt, d, b)), Eq(a, b))),
 		Forall([]*Term{d, a}, And(Not(App("istmppath", SBool, App("pathjoin", SInt, d, a))), Gt(App("pathjoin", SInt, d, a), IntLit(0)))))
+}
+
+// noIndexLockDuringTransfer: reading a body (from the origin, at the origin's pace) may block for as
+// long as the origin likes.  A key's shard lock may be held meanwhile - it stops only requests for
+// that key - but not a cache-wide index mutex (".mu"): every operation on every key would wait.
+func (x *Exec) noIndexLockDuringTransfer(fr *Frame, st *State, pc *preparedCall) {
+	if x.cur == nil || !x.cur.usesLocks && len(st.held) == 0 {
+		return
+	}
+	ok := true
+	for _, h := range st.held {
+		if strings.HasSuffix(h.Desc, ".mu") {
+			ok = false
+		}
+	}
+	x.oblige(fr, st, "locklevel", "body transfer with the index mutex held@"+x.siteLabel(pc.e), BoolLit(ok), pc.e)
+	x.Obls[len(x.Obls)-1].Tag = "C14"
 }
